@@ -27,7 +27,7 @@ REQUIRED_FEATURES = ["all_keys_collide", "negative_key", "large_key", "unsigned_
                      "absent_key_empty_bucket", "vector_with_absent", "lazy_form_materialised", "bfs_depth2", "empty_query", "one_element_vector"]
 BOUNDS = {"quick": "grid: every non-empty key subset of size <= 3 of {0,1,2,3,7,-1,-3,2**62} (int64), moduli {default,1,2,3,5,64}, 4 value forms; "
                    "the dtype list {int32,int8,uint8,uint64,python list} on 14 key sets; universe of 10 probe keys, all 100 pair queries. "
-                   "bfs: 20 configurations, all histories of depth <= 2 over ~20 state-changing operations, full observation of every distinct state",
+                   "bfs: 20 configurations, all histories of depth <= 2 over ~20 state-changing operations, full observation of every distinct state; one-element and empty key vectors; assigned values outside the key dtype's range and fractional values; caller's arrays and a twin table re-read",
           "thorough": "grid: subsets of size <= 4 incl. all insertion orders for size <= 3; bfs: depth 3, 40 configurations"}
 
 U = [0, 1, 2, 3, 5, 7, -1, -3, 2 ** 62, 2 ** 62 + 1]
